@@ -281,6 +281,27 @@ def run_case(case):
         # the second run executes a right pass the first one does not have: an exception there (e.g. the quadratic
         # refinement on three equal costs, A2) is not an asymmetry this property speaks about
         return {"n": 1, "sigs": [], "viol": [], "trivial": 1}
+    # the same validation-free pipeline on a machine object that has just run the pipeline WITH the cross-check
+    # (configuration completed by another machine, as when several jobs share one machine): still no right products
+    from pandora.state_machine import PandoraMachine  # pylint: disable=import-outside-toplevel
+
+    left, right = F.datasets(arr, case["disp"], case["rdisp"], swap=False, gridseed=case["seed"])
+    used = PandoraMachine()
+    first = P.run_observed(left, right, legal.build(pipe + ["cross"]), machine=used, observe=False)
+    if not first.error:
+        cfg = P.check(PandoraMachine(), left, right, legal.build(pipe))
+        again = P.run_observed(left, right, cfg["pipeline"], machine=used, do_check=False, observe=False)
+        r2 = again.right
+        if again.error is None and not (hasattr(r2, "data_vars") and len(r2.data_vars) == 0 and len(r2.dims) == 0):
+            viol.append({"clause": "right-empty-without-validation",
+                         "key": "C08/right-empty-without-validation/run on a machine that ran a validation pipeline",
+                         "detail": f"pipeline {legal.describe(pipe)} has no validation step; run on a machine object "
+                                   f"that had just run it with a cross-check appended, it returned a right dataset "
+                                   f"with variables {sorted(map(str, getattr(r2, 'data_vars', [])))}"})
+        elif again.error is None and not D.arr_eq(again.left["disparity_map"].data, oa.left["disparity_map"].data):
+            viol.append({"clause": "right-empty-without-validation",
+                         "key": "C08/left-differs/run on a machine that ran a validation pipeline",
+                         "detail": f"pipeline {legal.describe(pipe)}: left disparity map differs from a fresh machine's"})
     r = oa.right
     if not (hasattr(r, "data_vars") and len(r.data_vars) == 0 and len(r.dims) == 0):
         viol.append({"clause": "right-empty-without-validation", "key": "C08/right-empty-without-validation/run",
